@@ -121,6 +121,20 @@ _VFacility.__name__ = "BaseFacility"
 _VFacility.__qualname__ = "BaseFacility"
 
 
+class _VTask(_HTask):
+    """a user subclass whose equality is the task's name (skill maps are keyed by it)"""
+
+    def __eq__(self, other):
+        return type(other) is type(self) and other.name == self.name
+
+    def __hash__(self):
+        return hash(self.name)
+
+
+_VTask.__name__ = "BaseTask"
+_VTask.__qualname__ = "BaseTask"
+
+
 # user-style container subclasses with the usual conveniences (len(), truth value = "has members", iteration)
 class _UWorkflow(BaseWorkflow):
     def __len__(self):
@@ -175,6 +189,20 @@ _HComponent.__name__ = "BaseComponent"
 _HComponent.__qualname__ = "BaseComponent"
 
 
+class _VComponent(_HComponent):
+    """a user subclass whose equality is the part's name (its part number)"""
+
+    def __eq__(self, other):
+        return type(other) is type(self) and other.name == self.name
+
+    def __hash__(self):
+        return hash(self.name)
+
+
+_VComponent.__name__ = "BaseComponent"
+_VComponent.__qualname__ = "BaseComponent"
+
+
 class _HWorkplace(BaseWorkplace):
     def set_placed_component(self, placed_component, set_to_all_children_components=True):
         PLACEMENT_LOG.append(("wp_set", self.ID, placed_component.ID))
@@ -191,6 +219,33 @@ class _HWorkplace(BaseWorkplace):
 
 _HWorkplace.__name__ = "BaseWorkplace"
 _HWorkplace.__qualname__ = "BaseWorkplace"
+
+
+class _UComponent(_HComponent):
+    """a user subclass of an assembly: len() / iteration over its parts (a part without parts of its own is 'empty')"""
+
+    def __len__(self):
+        return len(self.child_component_list)
+
+    def __iter__(self):
+        return iter(self.child_component_list)
+
+
+_UComponent.__name__ = "BaseComponent"
+_UComponent.__qualname__ = "BaseComponent"
+
+
+class _EqWorkplace(_HWorkplace):
+    """a user subclass comparing docks by name (and therefore unhashable: __eq__ without __hash__)"""
+
+    def __eq__(self, other):
+        return type(other) is type(self) and other.name == self.name
+
+    __hash__ = None
+
+
+_EqWorkplace.__name__ = "BaseWorkplace"
+_EqWorkplace.__qualname__ = "BaseWorkplace"
 
 
 class Model(object):
@@ -211,10 +266,10 @@ class Model(object):
 
 def build(spec, plain=False):
     """Build a fresh project from `spec`.  plain=True uses the library's own classes (id() hashes)."""
-    TaskC = BaseTask if plain else _HTask
+    TaskC = BaseTask if plain else (_VTask if spec.get("value_eq_tasks") else _HTask)
     SubC = BaseSubProjectTask if plain else _HSubTask
-    CompC = BaseComponent if plain else _HComponent
-    WpC = BaseWorkplace if plain else _HWorkplace
+    CompC = BaseComponent if plain else (_VComponent if spec.get("value_eq_components") else (_UComponent if spec.get("build_style") == "bottom-up" else _HComponent))
+    WpC = BaseWorkplace if plain else (_EqWorkplace if spec.get("eq_workplaces") else _HWorkplace)
     WkC = BaseWorker if plain else (_VWorker if spec.get("value_eq") else _HWorker)
     FcC = BaseFacility if plain else (_VFacility if spec.get("value_eq") else _HFacility)
     bottom_up = spec.get("build_style") == "bottom-up"
@@ -257,7 +312,8 @@ def build(spec, plain=False):
         m.tasks.append(t)
         m.byname[t.ID] = t
     link_api = spec.get("link_api")  # how the links are declared: append_input_task (default), "int" (kind given as a plain integer),
-    for i, j, kind in spec.get("links", []):  # "extend" / "extend-gen" (extend_input_task_list with a list / a one-shot generator)
+    # "link_late": the links are declared only after every task has been registered in the workflow (successors registered before their predecessors)
+    for i, j, kind in (spec.get("links", []) if not spec.get("link_late") else []):  # "extend" / "extend-gen" (extend_input_task_list with a list / a one-shot generator)
         mode = DEP[kind]
         if link_api == "int":
             m.tasks[j].append_input_task(m.tasks[i], task_dependency_mode=int(mode))
@@ -395,7 +451,21 @@ def build(spec, plain=False):
                 for wp in wl[1:]:
                     wp.output_workplace_list = shared
     order = spec.get("order") or list(range(len(m.tasks)))
-    wf = BaseWorkflow([m.tasks[i] for i in order])
+    if spec.get("link_late"):
+        # register a task, declare its links to the tasks it waits for (registered or not), go on with the next one - successors first
+        wf = BaseWorkflow([])
+        for j in list(order)[::-1]:
+            wf.append_child_task(m.tasks[j])
+            for i, jj, kind in spec.get("links", []):
+                if jj == j:
+                    m.tasks[j].append_input_task(m.tasks[i], task_dependency_mode=DEP[kind])
+    elif spec.get("caller_list_append"):
+        # the caller keeps the list he handed to the workflow and appends a later phase's task to HIS list afterwards (never given to the workflow)
+        mine = [m.tasks[i] for i in order]
+        wf = BaseWorkflow(mine)
+        mine.append(BaseTask("phase2", ID="phase2", default_work_amount=31.0))
+    else:
+        wf = BaseWorkflow([m.tasks[i] for i in order])
     init_dt = INIT_DT
     if spec.get("init_tz_hours") is not None:
         init_dt = INIT_DT.replace(tzinfo=datetime.timezone(datetime.timedelta(hours=spec["init_tz_hours"])))  # a timezone-aware project start
@@ -410,6 +480,22 @@ def build(spec, plain=False):
             product.append_child_component(m.components[i])
             for ch in cs.get("children", []):
                 m.components[i].append_child_component(m.components[ch])
+    elif spec.get("product_wire") == "part-first":
+        # a part is registered in the product first and hung under its assembly afterwards; the assembly is registered last
+        product = BaseProduct([])
+        kids = set(ch for cs in spec.get("components", []) for ch in cs.get("children", []))
+        for i, cs in enumerate(spec.get("components", [])):
+            for ch in cs.get("children", []):
+                m.components[i].child_component_list.remove(m.components[ch])
+                m.components[ch].parent_component_list.remove(m.components[i])
+        for i in sorted(kids):
+            product.append_child_component(m.components[i])
+        for i, cs in enumerate(spec.get("components", [])):
+            for ch in cs.get("children", []):
+                m.components[i].append_child_component(m.components[ch])
+        for i, cs in enumerate(spec.get("components", [])):
+            if i not in kids:
+                product.append_child_component(m.components[i])
     else:
         product = BaseProduct(list(m.components))
     for rs in [w_ for tm_ in spec.get("teams", []) for w_ in tm_.get("workers", [])] + [f_ for wp_ in spec.get("workplaces", []) for f_ in wp_.get("facilities", [])]:
@@ -432,7 +518,7 @@ def build(spec, plain=False):
         # the project is created first, with empty containers of user subclasses (len() / truth value = "has members"), and everything is appended afterwards
         wf0, pr0, org0 = _UWorkflow([]), _UProduct([]), _UOrganization([], [])
         m.project = BaseProject(init_datetime=init_dt, unit_timedelta=datetime.timedelta(minutes=spec.get("unit_min", 1)), product=pr0, workflow=wf0, organization=org0)
-        for t_ in wf.task_list:
+        for t_ in list(wf.task_list):
             wf0.append_child_task(t_)
         for c_ in product.component_list:
             pr0.append_child_component(c_)
